@@ -135,6 +135,10 @@ def regress(args):
                 continue
             res[name] = {"exit": r.get("exit"), "sigs": r.get("violation_lines"), "wall_s": r.get("wall_s")}
             print(name, res[name], flush=True)
+    if filt and os.path.exists(V + "/controls/REGRESSION.json"):  # a partial run updates, a full run replaces
+        old = json.load(open(V + "/controls/REGRESSION.json")).get("results", {})
+        old.update(res)
+        res = old
     json.dump({"head": subprocess.run("git -C /repo rev-parse --short HEAD", shell=True, capture_output=True, text=True).stdout.strip(),
                "silent": sum(1 for v in res.values() if v["exit"] == 0), "total": len(res), "results": res},
               open(V + "/controls/REGRESSION.json", "w"), indent=1)
